@@ -80,6 +80,7 @@ type Exec struct {
 	Callees  map[string]bool // contracts relied upon
 	depth    int
 	noSafety bool
+	inQuant  int
 }
 
 func newExec(w *World, fn *ssa.Function, props []string) *Exec {
@@ -150,16 +151,24 @@ func fieldOffset(st *types.Struct, idx int) int64 {
 	return off
 }
 
-func isAstNodeType(t types.Type) bool {
-	n, ok := t.(*types.Named)
-	return ok && n.Obj().Pkg() != nil && n.Obj().Pkg().Path() == modPath+"/pkg/ast"
+func isPositionPtr(t types.Type) bool {
+	p, ok := t.(*types.Pointer)
+	if !ok {
+		return false
+	}
+	n, ok := p.Elem().(*types.Named)
+	return ok && n.Obj().Pkg() != nil && n.Obj().Pkg().Path() == modPath+"/pkg/position" && n.Obj().Name() == "Position"
 }
 
-// fieldKey names the heap array of field i of (named) struct type t.
+const posKey = "F:*.Position"
+
+// fieldKey names the heap array of field i of (named) struct type t. Every field called
+// Position of type *position.Position shares one array, so that the interface method
+// GetPosition() is a single select whatever the dynamic type (refs of distinct objects differ).
 func fieldKey(t types.Type, st *types.Struct, i int) string {
 	f := st.Field(i)
-	if isAstNodeType(t) && f.Name() == "Position" {
-		return "F:ast.*.Position"
+	if f.Name() == "Position" && isPositionPtr(f.Type()) {
+		return posKey
 	}
 	return "F:" + typeName(t) + "." + f.Name()
 }
